@@ -307,6 +307,25 @@ func init() {
 			prev = l
 		}
 	}
+	dumpers["lookuprows"] = func(p *Prog, m *Model) {
+		pk := map[string]bool{}
+		for _, s := range strings.Split(os.Getenv("PKG"), ",") {
+			pk[s] = true
+		}
+		for _, fn := range allModFuncs(p) {
+			if !pk[pkgOfFunc(fn)] || fn.Synthetic != "" {
+				continue
+			}
+			var l []string
+			for d := range lookupsOf(p, fn, 0, map[*ssa.Function]bool{}) {
+				l = append(l, d)
+			}
+			sort.Strings(l)
+			for _, d := range l {
+				fmt.Printf("%s\t%s\tPROPS\tREASON\n", fnDisplay(fn), d)
+			}
+		}
+	}
 	dumpers["memorows"] = func(p *Prog, m *Model) {
 		for _, fn := range allModFuncs(p) {
 			if fn.Synthetic != "" {
